@@ -11,7 +11,11 @@ use serde_json::{Value, json};
 
 use crate::prng::mix;
 
-pub const VERIF_DIR: &str = "/verif";
+/// Root for known_findings.jsonl, evidence/ and replays/ (`VERIF_HOME` lets a background
+/// sweep from a snapshot write next to itself instead of into /verif).
+pub fn verif_dir() -> String {
+    std::env::var("VERIF_HOME").unwrap_or_else(|_| "/verif".to_string())
+}
 
 #[derive(Clone, Copy, Debug, PartialEq, Eq)]
 pub enum Tier {
@@ -89,7 +93,7 @@ pub struct Known {
 }
 
 pub fn load_known() -> Vec<Known> {
-    let path = format!("{VERIF_DIR}/known_findings.jsonl");
+    let path = format!("{}/known_findings.jsonl", verif_dir());
     let Ok(text) = std::fs::read_to_string(&path) else {
         return Vec::new();
     };
@@ -342,7 +346,7 @@ pub fn finish(
         println!("KNOWN-FINDING: property={prop} {sig} (seen {n}x)");
     }
     let mut violations = 0;
-    let _ = std::fs::create_dir_all(format!("{VERIF_DIR}/replays"));
+    let _ = std::fs::create_dir_all(format!("{}/replays", verif_dir()));
     for (n, (sig, (count, f))) in new_seen.iter().enumerate() {
         violations += 1;
         if n >= 8 {
@@ -354,7 +358,8 @@ pub fn finish(
             _ => f.clone(),
         };
         let path = format!(
-            "{VERIF_DIR}/replays/{}-{}-{}-{}.json",
+            "{}/replays/{}-{}-{}-{}.json",
+            verif_dir(),
             batch.spec.check_name,
             batch.tier.name(),
             batch.seed,
@@ -437,7 +442,7 @@ pub fn finish(
         "wall_s": wall,
         "violations": violations,
     });
-    let ev_dir = format!("{VERIF_DIR}/evidence");
+    let ev_dir = format!("{}/evidence", verif_dir());
     let _ = std::fs::create_dir_all(&ev_dir);
     let ev_path = format!("{ev_dir}/{prop}.json");
     if let Err(e) = std::fs::write(&ev_path, serde_json::to_string_pretty(&ev).unwrap()) {
